@@ -1945,12 +1945,20 @@ impl<'t> B<'t> {
         let mut params: Vec<Param> = vec![];
         let mut sigs: Vec<PSig> = vec![];
         let mut defaults_started = false;
+        // names of outer variables that earlier defaults read: a LATER parameter of the same name
+        // must not be visible to them (defaults see earlier parameters and the defining scope only)
+        let mut default_reads: Vec<String> = vec![];
         // defaults are generated in the callee scope: earlier parameters are visible
         self.scopes.push(vec![]);
         for _ in 0..n {
             let ty = self.weighted(&[(6, Ty::Int), (3, Ty::Str), (2, Ty::Bool), (1, Ty::Dec), (1, Ty::ListInt), (1, Ty::NInt)]);
             let p = pool(ty);
-            let name = p[self.pick(p.len())].to_string();
+            let shadowing: Vec<String> = default_reads.iter().filter(|r| p.contains(&r.as_str()) && !taken.contains(*r)).cloned().collect();
+            let name = if !shadowing.is_empty() && self.chance(1, 2) {
+                shadowing[self.pick(shadowing.len())].clone()
+            } else {
+                p[self.pick(p.len())].to_string()
+            };
             if taken.contains(&name) {
                 continue;
             }
@@ -1986,6 +1994,36 @@ impl<'t> B<'t> {
             } else {
                 None
             };
+            if let Some(d) = &default {
+                fn vars(e: &Expr, out: &mut Vec<String>) {
+                    match e {
+                        Expr::Var(n) => out.push(n.clone()),
+                        Expr::List { items, .. } => items.iter().for_each(|i| vars(i, out)),
+                        Expr::Map(kv) => kv.iter().for_each(|(k, v)| {
+                            vars(k, out);
+                            vars(v, out)
+                        }),
+                        Expr::Bin(_, a, b) => {
+                            vars(a, out);
+                            vars(b, out)
+                        }
+                        Expr::Neg(a) | Expr::Not(a) | Expr::Div(a, _) | Expr::Length(a) => vars(a, out),
+                        Expr::If(a, b, c) => {
+                            vars(a, out);
+                            vars(b, out);
+                            vars(c, out)
+                        }
+                        _ => {}
+                    }
+                }
+                let mut r = vec![];
+                vars(d, &mut r);
+                for n in r {
+                    if !sigs.iter().any(|q| q.name == n) && !default_reads.contains(&n) {
+                        default_reads.push(n);
+                    }
+                }
+            }
             self.define(&name);
             sigs.push(PSig { name: name.clone(), ty, has_default: default.is_some() });
             params.push(Param { name, default });
